@@ -172,17 +172,19 @@ def flushed (C : Codec ρ) (s : State ρ) : State ρ :=
 def flushPack (v : Variant) (Z : Zip) (C : Codec ρ) (s : State ρ) : Pack ρ :=
   mkPack v Z s.settings .shared .sharedBuf s.buf.reverse s.count (encMany C.enc s.buf.reverse)
 
-theorem sendAndClear_eq (v : Variant) (Z : Zip) (C : Codec ρ) (s : State ρ) (hr : v.resetOnError = true)
+theorem sendAndClear_eq (v : Variant) (Z : Zip) (C : Codec ρ) (s : State ρ) (hr : v.sound = true)
     (h : s.bufLen ≠ 0) : sendAndClear v Z C s = (flushed C s, [flushPack v Z C s]) := by
+  have hr' : v.resetOnError = true := by
+    have := hr; simp only [Variant.sound, Bool.and_eq_true] at this; exact this.1
   unfold sendAndClear flushed flushPack
   rw [if_neg h]
-  simp [hr]
+  simp [hr']
 
 section sac
 variable (v : Variant) (Z : Zip) (C : Codec ρ) (s : State ρ)
 
 /-- everything one needs to know about a flush -/
-theorem sendAndClear_spec (hr : v.resetOnError = true) :
+theorem sendAndClear_spec (hr : v.sound = true) :
     let r := sendAndClear v Z C s
     r.1.settings = s.settings ∧ r.1.queue = s.queue ∧ r.1.stopped = s.stopped ∧ r.1.dstores = s.dstores ∧
     r.1.bufLen = 0 ∧
@@ -235,9 +237,9 @@ def appended (C : Codec ρ) (s : State ρ) (r : ρ) : State ρ :=
   { s with buf := r :: s.buf, bufLen := s.bufLen + (C.enc r).length, count := s.count + 1,
            firstTime := if s.firstTime = 0 then C.time r else s.firstTime }
 
-theorem appendRec_eq : appendRec v Z C s r =
+theorem appendOk_eq : appendOk v Z C s r =
     if mustFlush C s r then sendAndClear v Z C (appended C s r) else (appended C s r, []) := by
-  unfold appendRec mustFlush appended
+  unfold appendOk mustFlush appended
   by_cases h0 : s.firstTime = 0
   · simp only [h0, if_true, ne_eq, not_true_eq_false, false_and, or_false]
   · simp only [h0, if_false, ne_eq, not_false_eq_true, true_and]
@@ -246,13 +248,13 @@ theorem appended_WF (hw : WF C s) : WF C (appended C s r) := by
   unfold WF appended at *
   simp [bytesOf_cons, hw.1, hw.2]
 
-theorem appendRec_spec (hr : v.resetOnError = true) :
-    let x := appendRec v Z C s r
+theorem appendOk_spec (hr : v.sound = true) :
+    let x := appendOk v Z C s r
     x.1.settings = s.settings ∧ x.1.queue = s.queue ∧ x.1.stopped = s.stopped ∧ x.1.dstores = s.dstores ∧
     sharedRecs x.2 ++ x.1.buf.reverse = s.buf.reverse ++ [r] ∧ directRecs x.2 = [] ∧
     (∀ p ∈ x.2, Built v Z C s.settings p) ∧
     (WF C s → WF C x.1 ∧ ∀ p ∈ x.2, p.count = p.recs.length) := by
-  rw [appendRec_eq]
+  rw [appendOk_eq]
   by_cases hm : mustFlush C s r
   · simp only [hm, if_true]
     have h := sendAndClear_spec v Z C (appended C s r) hr
@@ -261,25 +263,55 @@ theorem appendRec_spec (hr : v.resetOnError = true) :
     rw [h6]; simp [appended]
   · simp only [hm, if_false]
     refine ⟨rfl, rfl, rfl, rfl, by simp [appended], rfl, by simp, fun hw => ⟨appended_WF C s r hw, by simp⟩⟩
+
+/-- **a failing append is a no-op**: a record whose serialisation panics (recovered by `Append`)
+    leaves the batch state exactly as it was and hands nothing over -/
+theorem append_fail_noop (hr : v.sound = true) (hf : C.fails r = true) : appendRec v Z C s r = (s, []) := by
+  have hc : v.countAfterWrite = true := by
+    have := hr; simp only [Variant.sound, Bool.and_eq_true] at this; exact this.2
+  unfold appendRec; simp [hf, hc]
+
+theorem appendRec_ok (hf : C.fails r = false) : appendRec v Z C s r = appendOk v Z C s r := by
+  unfold appendRec; simp [hf]
+
+@[simp] theorem good_nil (C : Codec ρ) : good C ([] : List ρ) = [] := rfl
+
+theorem good_append (C : Codec ρ) (a b : List ρ) : good C (a ++ b) = good C a ++ good C b := by
+  simp [good, List.filter_append]
+
+theorem good_singleton (C : Codec ρ) (r : ρ) : good C [r] = if C.fails r then [] else [r] := by
+  unfold good; cases h : C.fails r <;> simp [h]
+
+theorem appendRec_spec (hr : v.sound = true) :
+    let x := appendRec v Z C s r
+    x.1.settings = s.settings ∧ x.1.queue = s.queue ∧ x.1.stopped = s.stopped ∧ x.1.dstores = s.dstores ∧
+    sharedRecs x.2 ++ x.1.buf.reverse = s.buf.reverse ++ good C [r] ∧ directRecs x.2 = [] ∧
+    (∀ p ∈ x.2, Built v Z C s.settings p) ∧
+    (WF C s → WF C x.1 ∧ ∀ p ∈ x.2, p.count = p.recs.length) := by
+  cases hf : C.fails r
+  · rw [appendRec_ok v Z C s r hf, good_singleton, hf]
+    exact appendOk_spec v Z C s r hr
+  · rw [append_fail_noop v Z C s r hr hf, good_singleton, hf]
+    exact ⟨rfl, rfl, rfl, rfl, by simp, rfl, by simp, fun hw => ⟨hw, by simp⟩⟩
 end app
 
 /-! ### drain -/
 
-theorem drain_spec (v : Variant) (Z : Zip) (C : Codec ρ) (q : List ρ) (hr : v.resetOnError = true) : ∀ (s : State ρ),
+theorem drain_spec (v : Variant) (Z : Zip) (C : Codec ρ) (q : List ρ) (hr : v.sound = true) : ∀ (s : State ρ),
     let x := drain v Z C s q
     x.1.settings = s.settings ∧ x.1.queue = s.queue ∧ x.1.stopped = s.stopped ∧ x.1.dstores = s.dstores ∧
-    sharedRecs x.2 ++ x.1.buf.reverse = s.buf.reverse ++ q ∧ directRecs x.2 = [] ∧
+    sharedRecs x.2 ++ x.1.buf.reverse = s.buf.reverse ++ good C q ∧ directRecs x.2 = [] ∧
     (∀ p ∈ x.2, Built v Z C s.settings p) ∧
     (WF C s → WF C x.1 ∧ ∀ p ∈ x.2, p.count = p.recs.length) := by
   induction q with
-  | nil => intro s; simp [drain]
+  | nil => intro s; simp [drain, good]
   | cons r q ih =>
     intro s
     simp only [drain]
     obtain ⟨a1, a2, a3, a4, a5, a6, a7, a8⟩ := appendRec_spec v Z C s r hr
     obtain ⟨b1, b2, b3, b4, b5, b6, b7, b8⟩ := ih (appendRec v Z C s r).1
     refine ⟨by rw [b1, a1], by rw [b2, a2], by rw [b3, a3], by rw [b4, a4], ?_, ?_, ?_, ?_⟩
-    · rw [sharedRecs_append, List.append_assoc, b5, ← List.append_assoc, a5]; simp
+    · rw [sharedRecs_append, List.append_assoc, b5, ← List.append_assoc, a5, List.append_assoc, ← good_append]; rfl
     · rw [directRecs_append, a6, b6]; rfl
     · intro p hp
       rcases List.mem_append.mp hp with h | h
